@@ -197,7 +197,14 @@ def result_guards(guards, f):
     """multiset of `v <op> number` guards on local values (the local's name is irrelevant)"""
     ps = {p['name'] for p in f.get('params', [])}
     out = Counter()
+    atoms = []
     for g, cnt in guards.items():
+        parts = g[1:-1].split(' || ') if g.startswith('(') and g.endswith(')') and ' || ' in g and ' && ' not in g else [g]
+        for a_ in parts:
+            atoms.append((a_, cnt))
+    for g, cnt in atoms:
+        # a table cell tested directly is the same test as on a local that holds the cell
+        g = re.sub(r'\b[A-Za-z_]\w*(\[[^\]]*\])+', 'cell_', g)
         m = re.match(r'^(\w+) (<|<=|==|!=) (\w+)$', g)
         if not m:
             continue
